@@ -249,11 +249,25 @@ def _write_error_batch(
 
 
 def _write_error_stream(
-    writer_stream: IOBase, schema: pa.Schema, exc: BaseException, server_id: str | None = None
+    writer_stream: IOBase,
+    schema: pa.Schema,
+    exc: BaseException,
+    server_id: str | None = None,
+    *,
+    sink: _ClientLogSink | None = None,
 ) -> None:
-    """Write a complete IPC stream containing just an error batch."""
+    """Write a complete IPC stream containing just an error batch.
+
+    When *sink* is given, the client-directed log messages it buffered before
+    the failure are written ahead of the error batch, so a call that logs and
+    then raises still delivers its logs (as a unary call does).
+    """
     with new_ipc_stream(writer_stream, schema) as writer:
+        if sink is not None:
+            sink.flush_contents(writer, schema)
         _write_error_batch(writer, schema, exc, server_id=server_id)
+    if sink is not None:
+        sink.reset()
 
 
 class _ClientLogSink:
@@ -655,6 +669,17 @@ def _flush_collector(
         else:
             writer.write_batch(ab.batch)
     return 0
+
+
+def _flush_collector_logs(writer: ipc.RecordBatchStreamWriter, out: OutputCollector) -> None:
+    """Write only the log batches of a collector whose ``process()`` call failed.
+
+    The data batch (if any) is dropped with the failed call, but the client
+    logs emitted before the failure are delivered ahead of the error batch.
+    """
+    for ab in out.log_batches:
+        _record_output(ab.batch)
+        writer.write_batch(ab.batch, custom_metadata=ab.custom_metadata)
 
 
 def _dispatch_log_or_error(
